@@ -532,6 +532,8 @@ type c09Launch struct {
 	done    int // completions delivered by the CUs
 	rsps    int
 	stuckOK bool // some work-group fits no CU even when empty
+	fits0   bool // work-group 0 (the largest) fits at least one CU shape of the pool when that CU is empty
+	taken   bool // a dispatcher was seen holding this launch
 }
 
 func (l *c09Launch) nwf(idx int) int {
@@ -754,8 +756,10 @@ func (e *c09Env) doTicks(n int) (progress int) {
 		f := catch(func() { p = e.cp.Tick() })
 		if f != "" {
 			e.dead, e.fault = true, f
+			e.markTaken() // the first Handle of this tick may have taken a launch before the second panicked
 			break
 		}
+		e.markTaken()
 		if p {
 			progress++
 		} else if n == 1 && e.cuRoom > 0 {
@@ -783,6 +787,8 @@ func (e *c09Env) doTicks(n int) (progress int) {
 			kind = "notfound"
 		case strings.Contains(e.fault, "in_emulation_all_finished"):
 			kind = "batched-completion"
+		case strings.Contains(e.fault, "cannot_dispatch_kernel"):
+			kind = "oversize"
 		}
 		tok = append(tok, "fault:"+kind)
 		over16 := false
@@ -793,12 +799,63 @@ func (e *c09Env) doTicks(n int) (progress int) {
 			// a work-group of more than 1024 work-items (17 wavefronts) indexes past the
 			// dispatcher's 17-entry latency table: malformed input, reported as a fault, not a failure
 			e.r.Count("c09.cp.fault.over-16-wavefronts")
+		} else if kind == "oversize" {
+			// StartDispatching rejects a kernel whose first work-group fits no CU of the pool even when
+			// the CU is empty (repair 91eb1bb3). Launches are taken in delivery order, so the rejected
+			// one is the first that no dispatcher has held yet; the rejection is legitimate iff the
+			// harness's own bookkeeping agrees that its work-group 0 fits no CU shape (any CU, for
+			// every placement algorithm; with no CU nothing fits).
+			e.r.Checked("oversize-rejection")
+			head := e.headLaunch()
+			switch {
+			case head < 0:
+				e.fail("C09.tick.panic.oversize", "CommandProcessor.Tick rejected a kernel although no launch is waiting: %s", e.fault)
+			case e.launches[head].fits0:
+				l := e.launches[head]
+				e.fail("C09.tick.panic.oversize", "kernel %d was rejected (%s) although its first work-group (%d wavefronts, %d SGPRs, %d VGPRs, %d LDS bytes) fits an empty CU of the pool",
+					head, e.fault, l.nwf(0), l.dem.s, l.dem.v, l.dem.l)
+			default:
+				e.r.Count("c09.cp.fault.oversize-rejected")
+			}
 		} else {
 			e.fail("C09.tick.panic."+kind, "CommandProcessor.Tick panicked: %s", e.fault)
 		}
 	}
 	e.outs = append(e.outs, strings.Join(tok, ","))
 	return progress
+}
+
+// headLaunch: the first launch (delivery order = the FIFO of ToDriver) no dispatcher has held yet.
+func (e *c09Env) headLaunch() int {
+	for i, l := range e.launches {
+		if !l.taken {
+			return i
+		}
+	}
+	return -1
+}
+
+// markTaken runs after every tick that returned: a launch now held by a dispatcher was accepted by
+// StartDispatching (a launch is taken at the end of a tick and answered in a later one, so it is
+// always seen here). Accepting a kernel whose work-group 0 fits no CU is the repaired defect.
+func (e *c09Env) markTaken() {
+	for i := range e.cp.Dispatchers {
+		id := shim.DispStateOf(e.cp, i).KernelID
+		if id == "" {
+			continue
+		}
+		li, ok := e.byReq[id]
+		if !ok || e.launches[li].taken {
+			continue
+		}
+		l := e.launches[li]
+		l.taken = true
+		e.r.Checked("oversize-accept")
+		if !l.fits0 {
+			e.fail("C09.oversize.not-rejected", "kernel %d was accepted by a dispatcher although its first work-group (%d wavefronts, %d SGPRs, %d VGPRs, %d LDS bytes) fits no CU of the pool even when the CU is empty",
+				li, l.nwf(0), l.dem.s, l.dem.v, l.dem.l)
+		}
+	}
 }
 
 func (e *c09Env) launch(gx, wx, s, v, l int) {
@@ -830,6 +887,12 @@ func (e *c09Env) launch(gx, wx, s, v, l int) {
 		if !fits || d.nwf > 16 {
 			lc.stuckOK = true
 		}
+		if i == 0 {
+			lc.fits0 = anyFits
+		}
+	}
+	if gx <= 0 {
+		lc.fits0 = true // an empty grid has no first work-group: not checked
 	}
 	e.byReq[req.ID] = len(e.launches)
 	e.launches = append(e.launches, lc)
@@ -932,6 +995,28 @@ func c09RandLaunch(rng *Rng, small bool) (gx, wx, s, v, l int) {
 	return gx, wx, c09RandS(rng), c09RandV(rng), rng.Pick(0, 0, 1, 255, 256, 256, 257, 512, 1000)
 }
 
+// randLaunch draws a launch for the pool of e. A kernel whose first work-group fits no CU of the pool
+// is rejected by StartDispatching in the tick that takes it, which ends the scenario (Go panic); such
+// a draw is kept only now and then, so that most scenarios run to the drain phase.
+func (e *c09Env) randLaunch(rng *Rng, small bool) (gx, wx, s, v, l int) {
+	for try := 0; ; try++ {
+		gx, wx, s, v, l = c09RandLaunch(rng, small)
+		if len(e.shapes) == 0 || try >= 10 || rng.Chance(2) {
+			return
+		}
+		first := wx
+		if gx < wx {
+			first = gx
+		}
+		d := c09Dem{nwf: (first + 63) / 64, s: s, v: v, l: l}
+		for _, sh := range e.shapes {
+			if sh.fitsEmpty(d) {
+				return
+			}
+		}
+	}
+}
+
 func c09CPCase(r *Run, rng *Rng, alg string) {
 	nCU := rng.Pick(1, 1, 2, 2, 3, 4)
 	if rng.Chance(2) && alg != "partition" { // partition divides by the number of CUs
@@ -1001,7 +1086,7 @@ func c09CPCase(r *Run, rng *Rng, alg string) {
 		c := rng.Intn(100)
 		switch {
 		case len(e.launches) < maxLaunch && (c < 12 || burst && c < 40 || len(e.launches) == 0):
-			gx, wx, s, v, l := c09RandLaunch(rng, burst)
+			gx, wx, s, v, l := e.randLaunch(rng, burst)
 			e.launch(gx, wx, s, v, l)
 		case c < 60:
 			e.doTicks(1)
